@@ -6,6 +6,237 @@ FUNCS = ["mult_matrix", "translate_matrix", "apply_matrix_pt", "apply_matrix_rec
          "apply_matrix_norm", "drange"]
 
 
+import ast
+
+
+def const_int(mod, name: str) -> int:
+    """Value of a module-level integer constant written with literals and + - * << only."""
+    e = P.find_assign(mod, name)
+
+    def ev(x):
+        if isinstance(x, ast.Constant) and isinstance(x.value, int) and not isinstance(x.value, bool):
+            return x.value
+        if isinstance(x, ast.UnaryOp) and isinstance(x.op, ast.USub):
+            return -ev(x.operand)
+        if isinstance(x, ast.BinOp):
+            l, r = ev(x.left), ev(x.right)
+            if isinstance(x.op, ast.Add):
+                return l + r
+            if isinstance(x.op, ast.Sub):
+                return l - r
+            if isinstance(x.op, ast.Mult):
+                return l * r
+            if isinstance(x.op, ast.LShift) and 0 <= r <= 64:
+                return l << r
+        raise P.Untranslatable(f"{name} is not a constant integer expression")
+    return ev(e)
+
+
+def get_bound_fold(mod, known) -> str:
+    """`get_bound`: `limit = (±INF ...); (state) = limit; for x, y in pts: <assignments>; return state`
+    becomes a left fold of the translated loop body over the list of points."""
+    fn = P.find_function(mod, "get_bound")
+    body = [s for s in fn.body
+            if not (isinstance(s, ast.Expr) and isinstance(s.value, ast.Constant) and isinstance(s.value.value, str))]
+    if len(body) != 4:
+        raise P.Untranslatable("get_bound: expected limit / unpack / for / return")
+    lim, unp, loop, ret = body
+    if isinstance(lim, ast.AnnAssign):
+        lim_t, lim_v = lim.target, lim.value
+    elif isinstance(lim, ast.Assign) and len(lim.targets) == 1:
+        lim_t, lim_v = lim.targets[0], lim.value
+    else:
+        raise P.Untranslatable("get_bound: limit assignment")
+    if not (isinstance(lim_t, ast.Name) and isinstance(lim_v, ast.Tuple)):
+        raise P.Untranslatable("get_bound: limit is not a tuple")
+    init = []
+    for e in lim_v.elts:
+        if isinstance(e, ast.Name) and e.id == "INF":
+            init.append("((INF : Int) : Rat)")
+        elif (isinstance(e, ast.UnaryOp) and isinstance(e.op, ast.USub) and isinstance(e.operand, ast.Name)
+              and e.operand.id == "INF"):
+            init.append("(-((INF : Int) : Rat))")
+        else:
+            raise P.Untranslatable("get_bound: limit component is not +-INF")
+    if not (isinstance(unp, ast.Assign) and len(unp.targets) == 1 and isinstance(unp.targets[0], ast.Tuple)
+            and isinstance(unp.value, ast.Name) and unp.value.id == lim_t.id
+            and all(isinstance(x, ast.Name) for x in unp.targets[0].elts)):
+        raise P.Untranslatable("get_bound: state unpacking")
+    state = [x.id for x in unp.targets[0].elts]
+    if len(state) != len(init) or len(state) != 4:
+        raise P.Untranslatable("get_bound: state arity")
+    if not (isinstance(loop, ast.For) and not loop.orelse and isinstance(loop.iter, ast.Name)
+            and loop.iter.id == fn.args.args[0].arg and isinstance(loop.target, ast.Tuple)
+            and len(loop.target.elts) == 2 and all(isinstance(x, ast.Name) for x in loop.target.elts)):
+        raise P.Untranslatable("get_bound: loop header")
+    for s in loop.body:
+        if not (isinstance(s, ast.Assign) and len(s.targets) == 1 and isinstance(s.targets[0], ast.Name)
+                and s.targets[0].id in state):
+            raise P.Untranslatable("get_bound: loop body is not a sequence of state assignments")
+    if not (isinstance(ret, ast.Return) and isinstance(ret.value, ast.Tuple)
+            and [getattr(x, "id", None) for x in ret.value.elts] == state):
+        raise P.Untranslatable("get_bound: return is not the state tuple")
+    pt = [x.id for x in loop.target.elts]
+    src = ("def get_bound_step(acc: Rect, pt: Point) -> Rect:\n"
+           f"    ({', '.join(state)}) = acc\n"
+           f"    ({', '.join(pt)}) = pt\n"
+           + "".join("    " + ast.unparse(s) + "\n" for s in loop.body)
+           + f"    return ({', '.join(state)})\n")
+    step = ast.parse(src).body[0]
+    tr = P.FuncTranslator(known, default_kind="rat")
+    out = tr.function(step) + "\n"
+    out += ("def get_bound (pts : List Point) : Rect :=\n"
+            f"  List.foldl get_bound_step ({', '.join(init)}) pts\n\n")
+    return out
+
+
+# `uniq` and `fsplit` are generic generators/loops over arbitrary Python objects: outside the translator's
+# subset.  Their Lean definitions below are emitted only while the Python source still has exactly this shape
+# (an edit of either function stops the run with a translator failure).
+PINNED = {
+    "uniq": (
+        "def uniq(objs):\n"
+        "    done = set()\n"
+        "    for obj in objs:\n"
+        "        if obj in done:\n"
+        "            continue\n"
+        "        done.add(obj)\n"
+        "        yield obj\n",
+        "/-- `uniq` (pinned shape): `go done objs`; `done` is the set of elements already yielded. -/\n"
+        "def uniqGo (done : List Int) : List Int → List Int\n"
+        "  | [] => []\n"
+        "  | obj :: rest => if obj ∈ done then uniqGo done rest else obj :: uniqGo (obj :: done) rest\n\n"
+        "def uniq (objs : List Int) : List Int := uniqGo [] objs\n\n"),
+    "fsplit": (
+        "def fsplit(pred, objs):\n"
+        "    t = []\n"
+        "    f = []\n"
+        "    for obj in objs:\n"
+        "        if pred(obj):\n"
+        "            t.append(obj)\n"
+        "        else:\n"
+        "            f.append(obj)\n"
+        "    return (t, f)\n",
+        "/-- `fsplit` (pinned shape): the loop state is the pair of lists `(t, f)`. -/\n"
+        "def fsplitGo (pred : Int → Bool) (t f : List Int) : List Int → List Int × List Int\n"
+        "  | [] => (t, f)\n"
+        "  | obj :: rest => if pred obj then fsplitGo pred (t ++ [obj]) f rest else fsplitGo pred t (f ++ [obj]) rest\n\n"
+        "def fsplit (pred : Int → Bool) (objs : List Int) : List Int × List Int := fsplitGo pred [] [] objs\n\n"),
+}
+
+
+def pinned(mod, name: str) -> str:
+    fn = P.find_function(mod, name)
+    body = [s for s in fn.body
+            if not (isinstance(s, ast.Expr) and isinstance(s.value, ast.Constant) and isinstance(s.value.value, str))]
+    ref_src, lean = PINNED[name]
+    ref = ast.parse(ref_src).body[0]
+    if ([a.arg for a in fn.args.args] != [a.arg for a in ref.args.args] or fn.args.defaults or fn.args.vararg
+            or fn.args.kwarg or fn.args.kwonlyargs
+            or [ast.dump(s) for s in body] != [ast.dump(s) for s in ref.body]):
+        raise P.Untranslatable(f"{name} no longer has the shape its Lean definition was written for")
+    return lean
+
+
+class _Subst(ast.NodeTransformer):
+    """`self.x0` -> `self_x0`, `obj.x1` -> `obj_x1`, ... for the listed base names."""
+
+    def __init__(self, bases, rename=None):
+        self.bases = bases
+        self.rename = rename or {}
+
+    def visit_Attribute(self, node):
+        if isinstance(node.value, ast.Name) and node.value.id in self.bases:
+            name = f"{node.value.id}_{node.attr}"
+            return ast.copy_location(ast.Name(id=self.rename.get(name, name), ctx=ast.Load()), node)
+        return self.generic_visit(node)
+
+
+def _no_attr(node, what):
+    for x in ast.walk(node):
+        if isinstance(x, ast.Attribute):
+            raise P.Untranslatable(f"{what}: attribute access outside the subset: {ast.unparse(x)}")
+
+
+def _body(fn):
+    return [s for s in fn.body
+            if not (isinstance(s, ast.Expr) and isinstance(s.value, ast.Constant) and isinstance(s.value.value, str))]
+
+
+def _same(node, src: str) -> bool:
+    return ast.dump(node) == ast.dump(ast.parse(src).body[0])
+
+
+def plane_fragments(mod, known, maxcells: int) -> str:
+    """The straight-line arithmetic inside the methods of `Plane`:
+    the clamping of a box to the plane bounds (`_granges`), the cell-count test of `_cells`,
+    the skip condition of `find`."""
+    out = []
+    # --- _granges: everything before the final `return (drange(..), drange(..))`
+    fn = P.find_function(mod, "Plane._granges")
+    body = _body(fn)
+    bbox = fn.args.args[1].arg
+    if not _same(body[-1], "return (drange(x0, x1, self.gridsize), drange(y0, y1, self.gridsize))"):
+        raise P.Untranslatable("Plane._granges: the ranges are not drange(x0, x1, gridsize), drange(y0, y1, gridsize)")
+    stmts = [_Subst({"self"}).visit(s) for s in body[:-1]]
+    for st in stmts:
+        _no_attr(st, "Plane._granges")
+    src = (f"def plane_clamp(self_x0: float, self_y0: float, self_x1: float, self_y1: float, {bbox}: Rect) -> Rect:\n"
+           + "".join("    " + ast.unparse(st) + "\n" for st in stmts) + "    return (x0, y0, x1, y1)\n")
+    out.append(P.FuncTranslator(known, default_kind="rat").function(ast.parse(src).body[0]) + "\n")
+    # --- _getrange / _cells enumerate `for grid_y in yr: for grid_x in xr: (grid_x, grid_y)` (pinned)
+    fn = P.find_function(mod, "Plane._getrange")
+    if [ast.dump(x) for x in _body(fn)] != [ast.dump(x) for x in ast.parse(
+            "(xr, yr) = self._granges(bbox)\nfor grid_y in yr:\n    for grid_x in xr:\n        yield (grid_x, grid_y)\n").body]:
+        raise P.Untranslatable("Plane._getrange no longer enumerates (grid_x, grid_y) row by row")
+    # --- _cells: nx, ny and the test
+    fn = P.find_function(mod, "Plane._cells")
+    body = _body(fn)
+    if not (len(body) == 5 and _same(body[0], "(xr, yr) = self._granges(bbox)")
+            and _same(body[4], "return [(grid_x, grid_y) for grid_y in yr for grid_x in xr]")
+            and isinstance(body[3], ast.If) and not body[3].orelse and len(body[3].body) == 1
+            and _same(body[3].body[0], "return None")):
+        raise P.Untranslatable("Plane._cells: shape")
+    tr = P.FuncTranslator(known, default_kind="int")
+    for v in ("xr_start", "xr_stop", "yr_start", "yr_stop", "PLANE_MAXCELLS_I"):
+        tr.env[v] = "int"
+    lets = []
+    for st in body[1:3]:
+        st = _Subst({"self", "xr", "yr"}, {"self_MAXCELLS": "PLANE_MAXCELLS_I"}).visit(st)
+        _no_attr(st, "Plane._cells")
+        if not (isinstance(st, ast.Assign) and len(st.targets) == 1 and isinstance(st.targets[0], ast.Name)):
+            raise P.Untranslatable("Plane._cells: nx/ny")
+        lets.append(f"  let {st.targets[0].id} := {tr.expr(st.value, 'int')}\n")
+        tr.env[st.targets[0].id] = "int"
+    test = _Subst({"self", "xr", "yr"}, {"self_MAXCELLS": "PLANE_MAXCELLS_I"}).visit(body[3].test)
+    _no_attr(test, "Plane._cells")
+    out.append("def PLANE_MAXCELLS_I : Int := %d\n\n" % maxcells)
+    out.append("/-- `Plane._cells`: is the box filed in the overflow list (more than MAXCELLS cells)? -/\n"
+               "def plane_cells_over (xr_start xr_stop yr_start yr_stop : Int) : Bool :=\n"
+               + "".join(lets) + "  " + tr.cond(test) + "\n\n")
+    # --- find: the `continue` condition on the boxes
+    fn = P.find_function(mod, "Plane.find")
+    body = _body(fn)
+    bbox = fn.args.args[1].arg
+    if not (isinstance(body[0], ast.Assign) and _same(body[0], f"(x0, y0, x1, y1) = {bbox}")):
+        raise P.Untranslatable("Plane.find: query unpacking")
+    loops = [x for x in body if isinstance(x, ast.For)]
+    if len(loops) != 1 or not isinstance(loops[0].target, ast.Name):
+        raise P.Untranslatable("Plane.find: loop")
+    obj = loops[0].target.id
+    skips = [x for x in loops[0].body if isinstance(x, ast.If) and isinstance(x.test, ast.BoolOp)
+             and len(x.body) == 1 and isinstance(x.body[0], ast.Continue) and not x.orelse]
+    if len(skips) != 1:
+        raise P.Untranslatable("Plane.find: skip condition")
+    test = _Subst({obj}).visit(skips[0].test)
+    _no_attr(test, "Plane.find")
+    tr = P.FuncTranslator(known, default_kind="rat")
+    out.append("/-- `Plane.find`: the condition under which a candidate is skipped. -/\n"
+               f"def plane_find_skip ({obj}_x0 {obj}_y0 {obj}_x1 {obj}_y1 : Rat) ({bbox} : Rect) : Bool :=\n"
+               f"  let (x0, y0, x1, y1) := {bbox}\n  " + tr.cond(test) + "\n\n")
+    return "".join(out)
+
+
 def generate(lean_dir: str):
     mod = P.parse_file("pdfminer/utils.py")
     known = {}
@@ -20,11 +251,17 @@ def generate(lean_dir: str):
         out.append(tr.function(fn))
         out.append("\n")
         known[name] = name
+    inf = const_int(mod, "INF")
+    out.append("def INF : Int := %d\n\n" % inf)
+    out.append(get_bound_fold(mod, known))
+    out.append(pinned(mod, "uniq"))
+    out.append(pinned(mod, "fsplit"))
     # the bound on the number of grid cells one Plane operation may touch
     mc = P.literal(P.find_assign(mod, "Plane.MAXCELLS"))
     if not (isinstance(mc, int) and not isinstance(mc, bool) and mc > 0):
         raise P.Untranslatable("Plane.MAXCELLS is not a positive int literal")
     out.append("def PLANE_MAXCELLS : Nat := %d\n\n" % mc)
+    out.append(plane_fragments(mod, known, mc))
     out.append("end PdfVerif.Gen.Utils\n")
     path = os.path.join(lean_dir, "PdfVerif", "Gen", "Utils.lean")
     P.write_if_changed(path, "".join(out))
